@@ -65,6 +65,28 @@ Theorem C01_planar2d_all_stabilizers_commute_for_all_sizes :
 Proof. exact Planar2D.planar2d_stabilizers_commute. Qed.
 Print Assumptions C01_planar2d_all_stabilizers_commute_for_all_sizes.
 
+(** Layer P, Planar2DCode, every size >= 2: the logical X line commutes with every vertex (Z-type) generator, the
+    logical Z line with every face (X-type) generator, both lie on qubits of the lattice, and the two share exactly one
+    qubit (they anticommute). *)
+From PQ Require Planar2DLogicals.
+Theorem C01_planar2d_logicals_for_all_sizes :
+  forall (Lx Ly : BinNums.Z) s, (2 <= Lx)%Z -> (2 <= Ly)%Z -> In s (Planar2D.stab_coords Lx Ly) ->
+  ((Planar2D.is_vertex s = true -> Toric2D.overlap_par (Planar2D.support Lx Ly s) (Planar2DLogicals.lx Lx) = false) /\
+   (Planar2D.is_vertex s = false -> Toric2D.overlap_par (Planar2D.support Lx Ly s) (Planar2DLogicals.lz Ly) = false)) /\
+  Toric2D.overlap_par (Planar2DLogicals.lx Lx) (Planar2DLogicals.lz Ly) = true /\
+  (forall q, (Toric2D.mem q (Planar2DLogicals.lx Lx) = true -> Planar2D.is_qubit_b Lx Ly q = true) /\
+             (Toric2D.mem q (Planar2DLogicals.lz Ly) = true -> Planar2D.is_qubit_b Lx Ly q = true)).
+Proof.
+  intros Lx Ly s H1 H2 Hs.
+  assert (L1 : (1 <= Lx)%Z) by (apply BinInt.Z.le_trans with (m := 2%Z); [discriminate|assumption]).
+  assert (L2 : (1 <= Ly)%Z) by (apply BinInt.Z.le_trans with (m := 2%Z); [discriminate|assumption]).
+  split; [|split].
+  - exact (Planar2DLogicals.planar2d_logicals_commute_with_stabilizers Lx Ly s H1 H2 Hs).
+  - exact (Planar2DLogicals.planar2d_logical_pairing Lx Ly L1 L2).
+  - intros q. exact (Planar2DLogicals.planar2d_logicals_on_qubits Lx Ly q L1 L2).
+Qed.
+Print Assumptions C01_planar2d_logicals_for_all_sizes.
+
 (** Layer P, RotatedPlanar2DCode, every size L_x, L_y >= 2 *)
 From PQ Require RotatedPlanar2D.
 Theorem C01_rotated_planar2d_all_stabilizers_commute_for_all_sizes :
